@@ -1,4 +1,4 @@
 From Coq Require Import ExtrOcamlBasic ExtrOcamlString.
-From FoVerif Require Import Front.Term Driver.FileDriver.
+From FoVerif Require Import Front.Term Driver.FileDriver Core.Resolve.
 Extraction "x_c16.ml" scan_token_at tokens parse_sinterp reinterpret_escape keyword_names
-  drive final_content fo_dest fo_is_fo.
+  drive final_content fo_dest fo_is_fo resolve.
